@@ -182,7 +182,9 @@ func checkAlternation(l []lifeEvent, period time.Duration) error {
 			return fmt.Errorf("close event %d carries no error:%s", i, renderLife(l))
 		}
 		if e.open && i > 0 {
-			if gap := e.t.Sub(l[i-1].t); gap < period/2 {
+			// the two instants are the consumer's: if it was held up after taking the close event (so that it
+			// stamped it late) the difference says nothing; any scheduling hiccup around them makes it inconclusive
+			if gap := e.t.Sub(l[i-1].t); gap < period/2 && !stalls.StalledBetweenOver(l[i-1].t.Add(-2*period), e.t.Add(period), 6*time.Millisecond) {
 				return fmt.Errorf("a fresh channel opened %v after the previous one closed; the reconnect delay is %v:%s", gap, period, renderLife(l))
 			}
 		}
@@ -261,6 +263,7 @@ func runTCPClient(phases []phase) error {
 		rec.WaitClosed(bound)
 	}()
 	var causes []string
+	var lastPeerClose time.Time
 	var slow []bool
 	accepted := 0
 	var live int32
@@ -280,6 +283,15 @@ func runTCPClient(phases []phase) error {
 		if err != nil {
 			return fmt.Errorf("phase %d: the client never connected again within %v (events:%s)", pi, bound, renderLife(lifecycle(rec.Snapshot())))
 		}
+		// measured on the peer's side, where no consumer is involved: the node cannot notice the end of a connection
+		// before the peer ends it, and its next attempt comes a reconnect delay after it noticed
+		if !lastPeerClose.IsZero() {
+			if d := time.Since(lastPeerClose); d < c14Reconnect*9/10 {
+				conn.Close()
+				return fmt.Errorf("phase %d: the client connected again %v after the peer ended the previous connection; the reconnect delay is %v", pi, d, c14Reconnect)
+			}
+		}
+		lastPeerClose = time.Time{}
 		accepted++
 		if atomic.AddInt32(&live, 1) > 1 {
 			return fmt.Errorf("phase %d: a second connection arrived while the previous one was still open", pi)
@@ -303,13 +315,16 @@ func runTCPClient(phases []phase) error {
 		switch ph.kind {
 		case "eof-longlived":
 			time.Sleep(2 * c14Reconnect) // the connection lived longer than the reconnect delay
+			lastPeerClose = time.Now()
 			conn.Close()
 			causes = append(causes, "eof")
 		case "eof":
+			lastPeerClose = time.Now()
 			conn.Close()
 			causes = append(causes, "eof")
 		case "reset":
 			conn.(*net.TCPConn).SetLinger(0) //nolint:errcheck
+			lastPeerClose = time.Now()
 			conn.Close()
 			causes = append(causes, "reset")
 		case "idle":
